@@ -11,3 +11,4 @@ import Dtr.Props.C20
 #print axioms Dtr.C20_bind_up_to_lines
 #print axioms Dtr.C20_run_ignores_lines
 #print axioms Dtr.C20_header_blanks
+#print axioms Dtr.C20_token_spellings_from_source
